@@ -309,6 +309,10 @@ def _r11_2(ctx, P):
         ([("X",), ("X",)], [(S("A"),), (S("A"),)], {"X": S("A")}),
         ([("Z", "Y", "X")], [(S("C"), S("A"), S("B"))], {"Z": S("C"), "Y": S("A"), "X": S("B")}),
         ([("X",)], [(S("A"),), (S("B"),)], "raise"),
+        # fewer entries in `axis` than the signature has inputs (zip would silently stop at the shorter one)
+        ([("X",), ("X",)], [(S("A"),)], "raise"),
+        ([("X", "Y"), ("Y",)], [(S("A"), S("B"))], "raise"),
+        ([("X",), ("X",), ("X",)], [(S("A"),), (S("A"),)], "raise"),
         ([("X", "Y")], [(S("A"),)], "raise"),
         ([("X",), ("Y",)], [(S("A"),), (S("A"),)], "raise"),
         # the per-argument counts differ although the totals of distinct names agree
